@@ -12,7 +12,7 @@ interval (np.clip is the identity, the clip mask is 1), floored quantities stric
 import ast
 from fractions import Fraction as Fr
 
-from .e8_index import (Poly, Unsupported, fresh, dim_of, subst, mk_sum, mk_pow, mk_log, mk_abs, mk_sign, mk_delta, mk_var, mk_lt)
+from .e8_index import (Poly, Unsupported, fresh, dim_of, subst, mk_sum, mk_pow, mk_log, mk_abs, mk_sign, mk_delta, mk_var, mk_lt, mk_exp, mk_step)
 from .pm import norm_src
 
 
@@ -278,10 +278,13 @@ class Ret(Exception):
 class TermInterp:
     """interprets one function body. env: name -> value. attrs: 'self.x' -> python value / TArr"""
 
-    def __init__(self, env, attrs=None, notes=None):
+    def __init__(self, env, attrs=None, notes=None, mode="objective", attr_default=None, super_call=None):
         self.env = dict(env)
-        self.attrs = dict(attrs or {})
+        self.attrs = attrs if attrs is not None else {}
         self.notes = notes if notes is not None else []
+        self.mode = mode                    # "objective": generic interior point of a GEMINI; "model": forward/backward pass of an estimator
+        self.attr_default = attr_default    # callback: source text of `self.x` -> value, for attributes not in attrs
+        self.super_call = super_call        # callback: (method name, argument values) -> value, for super().m(...)
 
     # ---- statements
     def run(self, func):
@@ -466,8 +469,16 @@ class TermInterp:
             return
         if isinstance(t, ast.Subscript) and self.indexed_store(t, v, "set"):
             return
+        if isinstance(t, ast.Attribute) and isinstance(t.value, ast.Name) and t.value.id in self.env and self.env[t.value.id] is None:
+            self.attrs[norm_src(t)] = v
+            return
+        if isinstance(t, ast.Subscript) and isinstance(t.slice, ast.Constant) and isinstance(t.slice.value, int):
+            base = self.ev(t.value)
+            if isinstance(base, list):
+                base[t.slice.value] = v
+                return
         if isinstance(t, ast.Tuple):
-            if not isinstance(v, tuple) or len(v) != len(t.elts):
+            if not isinstance(v, (tuple, list)) or len(v) != len(t.elts):
                 raise Unsupported("tuple unpacking")
             for a, b in zip(t.elts, v):
                 self.assign(a, b)
@@ -513,6 +524,10 @@ class TermInterp:
             key = norm_src(e)
             if key in self.attrs:
                 return self.attrs[key]
+            if self.attr_default is not None and isinstance(e.value, ast.Name) and e.value.id in self.env and self.env[e.value.id] is None:
+                v = self.attr_default(key)
+                if v is not None:
+                    return v
             v = self.ev(e.value)
             if isinstance(v, TArr):
                 if e.attr == "T":
@@ -602,6 +617,8 @@ class TermInterp:
             if isinstance(e.ops[0], (ast.Gt, ast.Lt, ast.GtE, ast.LtE)) and "epsilon" in norm_src(e.comparators[0]):
                 self.notes.append(f"`{src}` is taken to hold (interior point)")
                 return TArr(a.shape, Poly.const(1), mask=True)
+            if self.mode == "model" and isinstance(e.ops[0], (ast.Gt, ast.GtE)) and isinstance(b, int) and b == 0:
+                return TArr(a.shape, mk_step(a.term, strict=isinstance(e.ops[0], ast.Gt)), mask=True)
             if isinstance(e.ops[0], ast.Eq) and isinstance(b, int) and b == 0:
                 # zero test of a floored quantity: empty off the diagonal at a generic point; the diagonal of a pairwise
                 # distance (term vanishing identically when the two indices coincide) is zero
@@ -675,6 +692,17 @@ class TermInterp:
             return self.np_call(c, name)
         if fn in ("ot.emd2", "emd2"):
             return self.emd2(c)
+        if fn.endswith(".update_params") and len(c.args) == 2 and getattr(self, "on_update", None) is not None:
+            self.on_update(self.ev(c.args[0]), self.ev(c.args[1]))
+            raise Ret(None)
+        if fn == "softmax" and len(c.args) == 1:
+            z = scalar(self.ev(c.args[0]))
+            if z.ndim != 2:
+                raise Unsupported("softmax of a non-matrix")
+            ez = TArr(z.shape, mk_exp(z.term))
+            return binop("div", ez, reduce_sum(ez, 1, True))
+        if isinstance(c.func, ast.Attribute) and isinstance(c.func.value, ast.Call) and norm_src(c.func.value.func) == "super" and self.super_call is not None:
+            return self.super_call(c.func.attr, [self.ev(a) for a in c.args])
         # methods
         if isinstance(c.func, ast.Attribute):
             recv = self.ev(c.func.value)
@@ -761,6 +789,9 @@ class TermInterp:
         if name == "maximum":
             b = A(1)
             if isinstance(b, (int, Fr)) and b == 0:
+                if self.mode == "model":
+                    x = scalar(A(0))
+                    return TArr(x.shape, x.term * mk_step(x.term))
                 self.notes.append("np.maximum(x, 0) = x where x > 0 (generic point)")
                 return A(0)
             raise Unsupported("np.maximum with a non-zero floor")
@@ -859,4 +890,4 @@ def _load(t):
 
 def input_array(name, dims):
     """symbolic input tensor: entry name[i0, i1, ...] at the positional placeholders"""
-    return TArr(dims, Poly.atom(mk_var(name, [ph(d, p) for p, d in enumerate(dims)])))
+    return TArr(dims, Poly.atom(mk_var(name, [ph(d, p) for p, d in enumerate(dims) if d != 1])))
